@@ -1,8 +1,8 @@
 (* C01 — completeness without side condition: with the consistency proof AHtree.ConsistencyProof
-   generates (coq/Merkle/AHTCons.v cons_ref, accepted by VerifyConsistency: ConsComplete.v
-   cons_ref_verifies) the honest dual proofs are accepted over every well-formed history. *)
+   generates (coq/Merkle/AHTCons.v cons_ref, accepted by VerifyConsistency: ConsFixed.v
+   consistency_fixed_complete) the honest dual proofs are accepted over every well-formed history. *)
 From V Require Import Proofs.History Proofs.Gen Proofs.Binding Proofs.Linear Proofs.Sound
-  Proofs.Session Proofs.Complete Merkle.Sound Merkle.RefEq Merkle.AHT Merkle.AHTCons Merkle.ConsComplete.
+  Proofs.Session Proofs.Complete Merkle.Sound Merkle.RefEq Merkle.AHT Merkle.AHTCons Merkle.ConsComplete Merkle.ConsFixed.
 From Coq Require Import ZifyN ZifyNat ZifyBool.
 Open Scope N_scope.
 
@@ -32,10 +32,10 @@ Proof.
 Qed.
 
 Lemma cons_complete hs a b : 1 <= a -> a <= b -> b <= lenN hs ->
-  verify_consistency H (gen_cons hs a b) a b (bl_root H hs a) (bl_root H hs b) = Ok true.
+  verify_consistency_fixed H (gen_cons hs a b) a b (bl_root H hs a) (bl_root H hs b) = Ok true.
 Proof.
   intros Ha Hab Hb. rewrite !bl_root_firstn by lia. unfold gen_cons.
-  apply (cons_ref_verifies H); auto.
+  apply (consistency_fixed_complete H); auto.
   unfold lenN, alhs in *. rewrite map_length. exact Hb.
 Qed.
 
